@@ -140,6 +140,13 @@ def analyse():
         and isinstance(assigns[0][1].value.func, ast.Attribute) and assigns[0][1].value.func.attr == 'Lock'
         and _is_name(assigns[0][1].value.func.value, 'threading') and not assigns[0][1].value.args
         and len(ctors) == 1 and not lock_rebound)
+    # the lock is taken and released by that one `with` statement ONLY: every other mention of the attribute in class
+    # Rmcp (an explicit .release() / .acquire() inside the block - between a time-out and the retransmission, say -, an
+    # alias, the lock handed to somebody else) could end the mutual exclusion in the middle of an exchange
+    allowed = set(id(i.context_expr) for n in withs for i in n.items) | set(
+        id(t) for _, a in assigns for t in (a.targets if isinstance(a, ast.Assign) else [a.target]))
+    f['lockOpsElsewhere'] = sum(1 for n in ast.walk(rmcp) if _is_self_attr(n, 'transaction_lock') and id(n) not in allowed) \
+        + sum(1 for n in ast.walk(rmcp) if isinstance(n, ast.Constant) and n.value == 'transaction_lock')
     others = [ast.unparse(i.context_expr) for n in all_withs for i in n.items
               if not _is_self_attr(i.context_expr, 'transaction_lock')]
     f['lockText'] = ('self.transaction_lock, the one threading.Lock() of the class' if f['oneLock'] else
@@ -518,7 +525,7 @@ open PyIpmi.Threads
 mentions of next_sequence_number / _inc_sequence_number outside the lock block of _send_and_receive: %d;
 session wrapper built: %s;  lock: %s -/
 def shape : Shape :=
-  { lockBlocks := %d, oneLock := %s, incFirst := %s, seqInLock := %s, incCalls := %d, ioOutsideLock := %d, sendsInLock := %d, recvsInLock := %d,
+  { lockBlocks := %d, oneLock := %s, lockOpsElsewhere := %d, incFirst := %s, seqInLock := %s, incCalls := %d, ioOutsideLock := %d, sendsInLock := %d, recvsInLock := %d,
     qGetInLock := %d, qPut := %d, packInSar := %d, packInSend := %d, sendBuildsIpmiMsg := %s,
     retryLoop := %s, packBeforeLoop := %d, packPerAttempt := %s, packIncs := %d,
     packIncGuardedByActivated := %s, seqAdd := %d, seqMod := %d, keepAliveLocked := %s, rawLocked := %s,
@@ -527,7 +534,7 @@ def shape : Shape :=
     closeStopsFirst := %s, closeChecksActivated := %s, closeLocked := %s, closeDeactivatesLast := %s }
 
 end PyIpmi.Gen.Threads
-''' % (f['keepAliveName'], f['stopperText'], f['seqOutsideLock'], f['packText'], f['lockText'].replace('-/', '- /'), f['lockBlocks'], _b(f['oneLock']), _b(f['incFirst']), _b(f['seqInLock']),
+''' % (f['keepAliveName'], f['stopperText'], f['seqOutsideLock'], f['packText'], f['lockText'].replace('-/', '- /'), f['lockBlocks'], _b(f['oneLock']), f['lockOpsElsewhere'], _b(f['incFirst']), _b(f['seqInLock']),
        f['incCalls'], f['ioOutsideLock'], f['sendsInLock'],
        f['recvsInLock'], f['qGetInLock'], f['qPut'], f['packInSar'], f['packInSend'], _b(f['sendBuildsIpmiMsg']),
        _b(f['retryLoop']), f['packBeforeLoop'], _b(f['packPerAttempt']), f['packIncs'], _b(f['packIncGuardedByActivated']), int(f['seqAdd']), int(f['seqMod']), _b(f['keepAliveLocked']),
